@@ -537,5 +537,27 @@ def run(ctx):
         # every decision that looks at a version goes through dewey_cmp (a derived ==, a string comparison of versions ... is a different order)
         other = sorted({mir.norm_path(c.term[1]) if is_call(c.term) else c.term[0] for p in bm for c in p.conds()
                         if mentions(c.term, lambda s: is_call(s, DV, "PkgName::pkgversion")) and not is_call(c.term, "dewey::dewey_cmp")})
+        # ... and the outcome of that comparison is the one acted on: with both candidates matching, v1 > v2 answers pkg1, v1 < v2 answers pkg2,
+        # and a dewey tie (neither) is not settled by the version comparison at all (it reaches the name tie-break, which is C06's)
+        from rules.c06 import classify as _classify
+        bad_rows = []
+        for p in ret_paths(bm):
+            conds = {}
+            for c in p.conds():
+                k, neg = _classify(c.term)
+                if k is not None and isinstance(c.fact[1], bool):
+                    conds[k] = (c.fact == ("eq", True)) != neg
+            if not (conds.get("m1") and conds.get("m2")):
+                continue
+            r = unwrap_some(p.end[1])
+            out = "pkg1" if r == ("param", 2) else "pkg2" if r == ("param", 3) else "?"
+            if conds.get("g") and out != "pkg1":
+                bad_rows.append("v1 > v2 answers %s" % out)
+            elif conds.get("l") and not conds.get("g") and out != "pkg2":
+                bad_rows.append("v1 < v2 answers %s" % out)
+            elif not conds.get("g") and not conds.get("l") and not ("g" in conds and "l" in conds):
+                bad_rows.append("%s is answered without both v1 > v2 and v1 < v2 having been ruled out (a tie is treated as an order)" % out)
+        ctx.check(not bad_rows, "D5-BESTMATCH", "pattern::Pattern::best_match", "dewey-outcome-acted-on", "higher version wins; a tie is left to the tie-break",
+                  "best_match does not act on the dewey comparison's outcome: %s" % sorted(set(bad_rows))[:2], "")
         ctx.check(not other, "D5-BESTMATCH", "pattern::Pattern::best_match", "only-dewey-cmp", "versions are compared only through dewey_cmp",
                   "best_match also decides on versions through %s: that is not the dewey order (e.g. derived equality distinguishes 1 from 1.0, which tie under zero padding)" % other, "")
